@@ -35,6 +35,16 @@ Proof. destruct a, b; cbn; intro H; try reflexivity; discriminate. Qed.
 
 Lemma bin_tok_in op tok : bin_tok op = Some tok -> In (op, tok) OpTables.bin.
 Proof. intro H. apply assoc_in in H as (k & Hin & Hc). apply binop_code_inj in Hc. subst. exact Hin. Qed.
+Lemma assoc2_in {A B} (code : A -> Z) k (l : list (A * B)) t :
+  assoc2 code k l = Some t -> exists k', In (k', t) l /\ code k = code k'.
+Proof.
+  induction l as [|[k' t'] r IH]; cbn; [discriminate|].
+  destruct (code k =? code k') eqn:E.
+  - intro H; inversion H; subst. apply Z.eqb_eq in E. exists k'. auto.
+  - intro H. destruct (IH H) as (k2 & Hin & Hc). exists k2. auto.
+Qed.
+Lemma bin_form_in op ft : bin_form op = Some ft -> In (op, ft) OpTables.binemit.
+Proof. intro H. apply assoc2_in in H as (k & Hin & Hc). apply binop_code_inj in Hc. subst. exact Hin. Qed.
 Lemma un_tok_in op tok : un_tok op = Some tok -> In (op, tok) OpTables.un.
 Proof. intro H. apply assoc_in in H as (k & Hin & Hc). apply unop_code_inj in Hc. subst. exact Hin. Qed.
 Lemma cmp_tok_in op tok : cmp_tok op = Some tok -> In (op, tok) OpTables.cmp.
@@ -47,12 +57,14 @@ Proof. intro H. apply assoc_in in H as (k & Hin & Hc). apply cmpop_code_inj in H
 Definition kop (op : binop) : option cbop :=
   match op with
   | Add => Some KAdd | Sub => Some KSub | Mult => Some KMul
-  | Div => Some KDiv | FloorDiv => Some KDiv            (* inside op_guard only *)
-  | Mod => Some KMod
+  | Div => Some KDiv
   | BitAnd => Some KBand | BitOr => Some KBor | BitXor => Some KBxor
   | LShift => Some KShl | RShift => Some KShr
-  | Pow | MatMult => None                                (* op_guard is false: nothing to show *)
+  | FloorDiv | Mod | Pow | MatMult => None
   end.
+(* which helper template a Python operator has to become (true: __redu_mod) *)
+Definition hop (op : binop) : option bool :=
+  match op with FloorDiv => Some false | Mod => Some true | _ => None end.
 Definition uop (op : unop) : option cuop :=
   match op with UAdd => Some KPos | USub => Some KNeg | Not => Some KNot | Invert => None end.
 
@@ -69,39 +81,77 @@ Definition cuop_eqb (a b : cuop) : bool :=
 Lemma cuop_eqb_eq a b : cuop_eqb a b = true -> a = b.
 Proof. destruct a, b; cbn; intro H; try reflexivity; discriminate. Qed.
 
-Definition bin_pair_ok (p : binop * text) : bool :=
-  match kop (fst p) with
-  | Some k => match bintok (snd p) with Some k' => cbop_eqb k' k | None => false end
-  | None => true
+(* one row of the probed table of _emit_binop: an operator with a C++ counterpart is infix with that token, // and %
+   are calls of the helper template that implements them, ** is rejected (MatMult is not in _BIN at all) *)
+Definition bin_pair_ok (p : binop * (Z * text)) : bool :=
+  let op := fst p in let kind := fst (snd p) in let txt := snd (snd p) in
+  match kop op, hop op with
+  | Some k, _ => (kind =? 0) && match bintok txt with Some k' => cbop_eqb k' k | None => false end
+  | None, Some md => (kind =? 1) && match helper_name txt with Some md' => Bool.eqb md' md | None => false end
+  | None, None => match op with Pow => kind =? 2 | _ => true end
   end.
+Fixpoint zlist_eqb (a b : list Z) : bool :=
+  match a, b with
+  | [], [] => true
+  | x :: a', y :: b' => (x =? y) && zlist_eqb a' b'
+  | _, _ => false
+  end.
+(* _emit_binop was probed for exactly the operators of _BIN, in the same order *)
+Definition same_ops : bool :=
+  zlist_eqb (map (fun p => binop_code (fst p)) OpTables.bin) (map (fun p => binop_code (fst p)) OpTables.binemit).
+(* every helper call adds a key to ctx["helpers"] for which emit() stitches a snippet into the sketch *)
+Definition helper_row_ok (p : binop * (Z * text)) : bool :=
+  if fst (snd p) =? 1 then
+    match tlookup (snd (snd p)) OpTables.binemit_keys with
+    | Some key => existsb (text_eqb key) OpTables.snippet_keys
+    | None => false
+    end
+  else true.
 Definition un_pair_ok (p : unop * text) : bool :=
   match uop (fst p), untok (snd p) with Some k, Some k' => cuop_eqb k' k | _, _ => false end.
 Definition cmp_pair_ok (p : cmpop * text) : bool :=
   match cmptok (snd p) with Some op' => cmpop_code op' =? cmpop_code (fst p) | None => false end.
 
-Lemma generated_tables_ok :
-  forallb bin_pair_ok OpTables.bin && forallb un_pair_ok OpTables.un && forallb cmp_pair_ok OpTables.cmp = true.
+Definition tables_ok : bool :=
+  forallb bin_pair_ok OpTables.binemit && forallb un_pair_ok OpTables.un && forallb cmp_pair_ok OpTables.cmp
+  && same_ops && forallb helper_row_ok OpTables.binemit.
+
+Lemma generated_tables_ok : tables_ok = true.
 Proof. vm_compute. reflexivity. Qed.
 
-Lemma bin_table op tok k : In (op, tok) OpTables.bin -> kop op = Some k -> bintok tok = Some k.
+Lemma bin_row op ft : In (op, ft) OpTables.binemit -> bin_pair_ok (op, ft) = true.
 Proof.
-  intros Hin Hk. pose proof generated_tables_ok as H.
-  apply andb_true_iff in H as [H _]. apply andb_true_iff in H as [H _].
-  rewrite forallb_forall in H. specialize (H _ Hin). unfold bin_pair_ok in H. cbn [fst snd] in H.
-  rewrite Hk in H. destruct (bintok tok) as [k'|]; [|discriminate]. apply cbop_eqb_eq in H. congruence.
+  intros Hin. pose proof generated_tables_ok as H. unfold tables_ok in H.
+  do 4 (apply andb_true_iff in H as [H _]).
+  rewrite forallb_forall in H. exact (H _ Hin).
 Qed.
+Lemma bin_table op kind tok k : In (op, (kind, tok)) OpTables.binemit -> kop op = Some k -> kind = 0 /\ bintok tok = Some k.
+Proof.
+  intros Hin Hk. pose proof (bin_row _ _ Hin) as H. unfold bin_pair_ok in H. cbn [fst snd] in H.
+  rewrite Hk in H. apply andb_true_iff in H as [H0 H]. apply Z.eqb_eq in H0.
+  destruct (bintok tok) as [k'|]; [|discriminate]. apply cbop_eqb_eq in H. split; congruence.
+Qed.
+Lemma helper_table op kind f md : In (op, (kind, f)) OpTables.binemit -> hop op = Some md -> kind = 1 /\ helper_name f = Some md.
+Proof.
+  intros Hin Hh. pose proof (bin_row _ _ Hin) as H. unfold bin_pair_ok in H. cbn [fst snd] in H.
+  rewrite Hh in H. assert (Hk : kop op = None) by (destruct op; try discriminate Hh; reflexivity). rewrite Hk in H.
+  apply andb_true_iff in H as [H0 H]. apply Z.eqb_eq in H0.
+  destruct (helper_name f) as [md'|]; [|discriminate]. apply Bool.eqb_prop in H. split; congruence.
+Qed.
+Lemma pow_table kind f : In (Pow, (kind, f)) OpTables.binemit -> kind = 2.
+Proof. intros Hin. pose proof (bin_row _ _ Hin) as H. unfold bin_pair_ok in H. cbn in H. apply Z.eqb_eq in H. exact H. Qed.
 Lemma un_table op tok : In (op, tok) OpTables.un -> exists k, uop op = Some k /\ untok tok = Some k.
 Proof.
-  intros Hin. pose proof generated_tables_ok as H.
-  apply andb_true_iff in H as [H _]. apply andb_true_iff in H as [_ H].
+  intros Hin. pose proof generated_tables_ok as H. unfold tables_ok in H.
+  do 3 (apply andb_true_iff in H as [H _]). apply andb_true_iff in H as [_ H].
   rewrite forallb_forall in H. specialize (H _ Hin). unfold un_pair_ok in H. cbn [fst snd] in H.
   destruct (uop op) as [k|]; [|discriminate]. destruct (untok tok) as [k'|]; [|discriminate].
   apply cuop_eqb_eq in H. subst. eauto.
 Qed.
 Lemma cmp_table op tok : In (op, tok) OpTables.cmp -> cmptok tok = Some op.
 Proof.
-  intros Hin. pose proof generated_tables_ok as H.
-  apply andb_true_iff in H as [_ H].
+  intros Hin. pose proof generated_tables_ok as H. unfold tables_ok in H.
+  do 2 (apply andb_true_iff in H as [H _]). apply andb_true_iff in H as [_ H].
   rewrite forallb_forall in H. specialize (H _ Hin). unfold cmp_pair_ok in H. cbn [fst snd] in H.
   destruct (cmptok tok) as [op'|]; [|discriminate]. apply Z.eqb_eq, cmpop_code_inj in H. congruence.
 Qed.
@@ -136,29 +186,40 @@ Lemma vrel_tag_str v w : vrel v w -> is_strv v = true -> is_strty (tag_of w) = t
 Proof. destruct v, w; cbn; intros H Hn; try contradiction; try discriminate; auto. Qed.
 
 (* ------------------------------------------------------------------ *)
-(* C's truncating division against Python's flooring division           *)
+(* the helper templates against Python's flooring division and modulo    *)
 (* ------------------------------------------------------------------ *)
-Lemma quot_div_guard x y : y <> 0 -> same_sign_or_exact x y = true -> Z.quot x y = Z.div x y.
+Lemma c_floordiv_div x y : y <> 0 -> c_floordiv x y = Z.div x y.
 Proof.
-  intros Hy H. unfold same_sign_or_exact in H.
-  apply orb_true_iff in H as [H|H]; [apply orb_true_iff in H as [H|H]|].
-  - apply Z.eqb_eq in H.
-    pose proof (Z.quot_rem' x y) as E. rewrite H, Z.add_0_r in E.
-    apply Z.div_unique_exact; [exact Hy|]. exact E.
-  - apply andb_true_iff in H as [H1 H2]. apply Z.leb_le in H1. apply Z.ltb_lt in H2.
-    apply Z.quot_div_nonneg; lia.
-  - apply andb_true_iff in H as [H1 H2]. apply Z.leb_le in H1. apply Z.ltb_lt in H2.
-    rewrite <- (Z.opp_involutive x), <- (Z.opp_involutive y) at 1.
-    rewrite Z.quot_opp_opp by lia. rewrite Z.quot_div_nonneg by lia.
-    rewrite Z.div_opp_opp by lia. reflexivity.
+  intro Hy. unfold c_floordiv.
+  pose proof (Z.quot_rem' x y) as E. pose proof (Z.rem_bound_abs x y Hy) as B.
+  pose proof (Z.rem_sign_mul x y Hy) as S.
+  destruct (Z.rem x y =? 0) eqn:E0; cbn [negb andb].
+  - apply Z.eqb_eq in E0. rewrite E0, Z.add_0_r in E. apply Z.div_unique_exact; [exact Hy|exact E].
+  - apply Z.eqb_neq in E0.
+    assert (S1 : x < 0 -> Z.rem x y < 0) by (intro; destruct (Z.ltb_spec (Z.rem x y) 0); [assumption|nia]).
+    assert (S2 : 0 <= x -> 0 < Z.rem x y).
+    { intro. destruct (Z.eq_dec x 0) as [X0|X0]; [subst x; rewrite Z.rem_0_l in E0 by exact Hy; congruence|].
+      destruct (Z.ltb_spec 0 (Z.rem x y)); [assumption|nia]. }
+    destruct (Z.ltb_spec x 0), (Z.ltb_spec y 0); cbn [Bool.eqb negb].
+    + apply (Z.div_unique _ _ _ (Z.rem x y)); [right; lia|lia].
+    + apply (Z.div_unique _ _ _ (Z.rem x y + y)); [left; lia|lia].
+    + apply (Z.div_unique _ _ _ (Z.rem x y + y)); [right; lia|lia].
+    + apply (Z.div_unique _ _ _ (Z.rem x y)); [left; lia|lia].
 Qed.
 
-Lemma rem_mod_guard x y : y <> 0 -> same_sign_or_exact x y = true -> Z.rem x y = Z.modulo x y.
+Lemma c_mod_mod x y : y <> 0 -> c_mod x y = Z.modulo x y.
 Proof.
-  intros Hy H.
-  pose proof (quot_div_guard x y Hy H) as Q.
-  pose proof (Z.quot_rem' x y) as E1. pose proof (Z.div_mod x y Hy) as E2.
-  rewrite Q in E1. lia.
+  intro Hy. unfold c_mod.
+  pose proof (Z.quot_rem' x y) as E. pose proof (Z.rem_bound_abs x y Hy) as B.
+  destruct (Z.rem x y =? 0) eqn:E0; cbn [negb andb].
+  - apply Z.eqb_eq in E0. rewrite E0. rewrite E0, Z.add_0_r in E.
+    apply (Z.mod_unique _ _ (Z.quot x y)); [destruct (Z.ltb_spec 0 y); [left|right]; lia|lia].
+  - apply Z.eqb_neq in E0.
+    destruct (Z.ltb_spec (Z.rem x y) 0), (Z.ltb_spec y 0); cbn [Bool.eqb negb].
+    + apply (Z.mod_unique _ _ (Z.quot x y)); [right; lia|lia].
+    + apply (Z.mod_unique _ _ (Z.quot x y - 1)); [left; lia|lia].
+    + apply (Z.mod_unique _ _ (Z.quot x y - 1)); [right; lia|lia].
+    + apply (Z.mod_unique _ _ (Z.quot x y)); [left; lia|lia].
 Qed.
 
 (* ------------------------------------------------------------------ *)
@@ -192,33 +253,62 @@ Proof.
   all: try (rewrite E).
   all: try (eexists; split; reflexivity).
   all: cbn [op_guard is_intlike as_num qof is_intv is_numv is_floatv andb orb] in Hg; rewrite ?b01_if in Hg.
-  (* integer // and % : truncation = flooring inside the guard *)
-  all: try (apply Z.eqb_neq in E;
-            first [ rewrite (quot_div_guard _ _ E Hg) | rewrite (rem_mod_guard _ _ E Hg) ];
-            rewrite (fits_mkint _ Hf); eexists; split; reflexivity).
-  (* float // : only with an integral quotient *)
-  all: try (apply Qeq_bool_iff in Hg;
-            eexists; split; [reflexivity|]; unfold vfloat, qfloor_div; cbn [vrel];
-            apply Qred_complete; exact Hg).
   (* shifts *)
   all: try (rewrite Hg; rewrite (fits_mkint _ Hf); eexists; split; reflexivity).
   (* bool & bool etc. stay bool in Python, int 0/1 in C++ *)
   all: try (repeat match goal with b : bool |- _ => destruct b end; cbn; eexists; split; reflexivity).
 Qed.
 
+(* // and % : the helper templates *)
+Lemma helper_num_sound op md a b wa wb v :
+  hop op = Some md -> vrel a wa -> vrel b wb -> op_guard op a b = true ->
+  py_bin op a b = Ok v -> vfits v = true ->
+  exists w, csem_helper md wa wb = COk w /\ vrel v w /\ arith_ty (tag_of wa) (tag_of wb) = Some (tag_of w).
+Proof.
+  intros Hh Ha Hb Hg Hp Hf.
+  destruct op; cbn in Hh; inversion Hh; subst md; clear Hh;
+  (destruct a; try (cbn in Hg; discriminate Hg));
+  (destruct b; try (cbn in Hg; rewrite ?andb_false_r in Hg; discriminate Hg));
+  (destruct wa; cbn in Ha; try contradiction);
+  (destruct wb; cbn in Hb; try contradiction); subst.
+  all: cbn [py_bin py_bin_num as_num num_bin qof is_intlike] in Hp; rewrite ?b01_if in Hp; split_ifs Hp; inversion Hp; subst; clear Hp.
+  all: cbn [csem_helper arith_ty tag_of is_numty is_intty andb as_int as_q].
+  all: cbn [vfits] in Hf.
+  all: try rewrite E.
+  all: try (apply Z.eqb_neq in E; first [rewrite (c_floordiv_div _ _ E) | rewrite (c_mod_mod _ _ E)];
+            rewrite (fits_mkint _ Hf); eexists; split; [reflexivity|split; reflexivity]).
+  all: eexists; split; [reflexivity|split; reflexivity].
+Qed.
+
 (* ------------------------------------------------------------------ *)
 (* per-operator theorems over the generated tables                      *)
 (* ------------------------------------------------------------------ *)
-Lemma op_guard_kop op a b : op_guard op a b = true -> exists k, kop op = Some k.
+Lemma op_guard_cases op a b : op_guard op a b = true -> (exists k, kop op = Some k) \/ (exists md, hop op = Some md).
 Proof. destruct op; cbn; intro H; try discriminate; eauto. Qed.
 
+Lemma kop_hop op k md : kop op = Some k -> hop op = Some md -> False.
+Proof. destruct op; cbn; intros; discriminate. Qed.
+
 Lemma binop_table_sound op tok :
-  In (op, tok) OpTables.bin ->
+  In (op, (0, tok)) OpTables.binemit ->
   forall a b wa wb v, vrel a wa -> vrel b wb -> op_guard op a b = true ->
   py_bin op a b = Ok v -> vfits v = true -> exists w, csem_bin tok wa wb = COk w /\ vrel v w.
 Proof.
-  intros Hin a b wa wb v Ha Hb Hg Hp Hf. destruct (op_guard_kop _ _ _ Hg) as [k Hk].
-  unfold csem_bin. rewrite (bin_table _ _ _ Hin Hk). eapply bin_num_sound; eauto.
+  intros Hin a b wa wb v Ha Hb Hg Hp Hf. destruct (op_guard_cases _ _ _ Hg) as [[k Hk]|[md Hh]].
+  - unfold csem_bin. destruct (bin_table _ _ _ _ Hin Hk) as [_ Hb']. rewrite Hb'. eapply bin_num_sound; eauto.
+  - destruct (helper_table _ _ _ _ Hin Hh) as [H0 _]. discriminate H0.
+Qed.
+
+Lemma binop_helper_sound op f :
+  In (op, (1, f)) OpTables.binemit ->
+  forall a b wa wb v, vrel a wa -> vrel b wb -> op_guard op a b = true ->
+  py_bin op a b = Ok v -> vfits v = true ->
+  exists md w, helper_name f = Some md /\ csem_helper md wa wb = COk w /\ vrel v w.
+Proof.
+  intros Hin a b wa wb v Ha Hb Hg Hp Hf. destruct (op_guard_cases _ _ _ Hg) as [[k Hk]|[md Hh]].
+  - destruct (bin_table _ _ _ _ Hin Hk) as [H0 _]. discriminate H0.
+  - destruct (helper_table _ _ _ _ Hin Hh) as [_ Hn]. exists md.
+    destruct (helper_num_sound _ _ _ _ _ _ _ Hh Ha Hb Hg Hp Hf) as (w & Hw & Hv & _). eauto.
 Qed.
 
 Lemma qnormal_eq q : qnormal q = true -> Qred q = q.
@@ -288,35 +378,94 @@ Definition py_of (e : pexpr) : res pval := peval [] e.
 Definition w_a0 : pexpr := ECall n_analog_read [EStr [65;48]] [].
 Definition ins39 : inputs := [((true, 14), [3; 9; 1])].
 
-Lemma floordiv_refuted : exists a b : Z, b <> 0 /\
-  py_of (EBin FloorDiv (EInt a) (EInt b)) = Ok (VInt (-4)) /\
-  c_of (EBin FloorDiv (EInt a) (EInt b)) [] = Some (COk (CInt (-3), [])).
-Proof. exists (-7), 2. split; [lia|]. split; vm_compute; reflexivity. Qed.
+(* // and % (repaired defects F-C01-floordiv, F-C01-mod-sign, F-C01-mod-float): the old witnesses now agree *)
+Lemma floordiv_witness :
+  py_of (EBin FloorDiv (EInt (-7)) (EInt 2)) = Ok (VInt (-4)) /\
+  c_of (EBin FloorDiv (EInt (-7)) (EInt 2)) [] = Some (COk (CInt (-4), [])).
+Proof. split; vm_compute; reflexivity. Qed.
 
-Lemma floordiv_float_refuted : exists q : Q,
-  py_of (EBin FloorDiv (EFloat q) (EInt 2)) = Ok (VFloat (-1 # 1)) /\
-  c_of (EBin FloorDiv (EFloat q) (EInt 2)) [] = Some (COk (CFloat (-7 # 8), [])).
-Proof. exists (-7 # 4). split; vm_compute; reflexivity. Qed.
+Lemma floordiv_float_witness :
+  py_of (EBin FloorDiv (EFloat (-7 # 4)) (EInt 2)) = Ok (VFloat (-1 # 1)) /\
+  c_of (EBin FloorDiv (EFloat (-7 # 4)) (EInt 2)) [] = Some (COk (CFloat (-1 # 1), [])).
+Proof. split; vm_compute; reflexivity. Qed.
 
-Lemma mod_refuted : exists a b : Z, b <> 0 /\
-  py_of (EBin Mod (EInt a) (EInt b)) = Ok (VInt 2) /\
-  c_of (EBin Mod (EInt a) (EInt b)) [] = Some (COk (CInt (-1), [])).
-Proof. exists (-7), 3. split; [lia|]. split; vm_compute; reflexivity. Qed.
+Lemma mod_witness :
+  py_of (EBin Mod (EInt (-7)) (EInt 3)) = Ok (VInt 2) /\
+  c_of (EBin Mod (EInt (-7)) (EInt 3)) [] = Some (COk (CInt 2, [])).
+Proof. split; vm_compute; reflexivity. Qed.
 
-Lemma mod_float_refuted : exists q : Q,
-  py_of (EBin Mod (EFloat q) (EInt 2)) = Ok (VFloat (7 # 4)) /\
-  c_of (EBin Mod (EFloat q) (EInt 2)) [] = Some CStuck.
-Proof. exists (7 # 4). split; vm_compute; reflexivity. Qed.
+Lemma mod_float_witness :
+  py_of (EBin Mod (EFloat (7 # 4)) (EInt 2)) = Ok (VFloat (7 # 4)) /\
+  c_of (EBin Mod (EFloat (7 # 4)) (EInt 2)) [] = Some (COk (CFloat (7 # 4), [])).
+Proof. split; vm_compute; reflexivity. Qed.
+
+(* for all int operands: the closed expression a // b, a % b computes Python's value on the device *)
+Lemma c_of_helper_int op md f a b :
+  bin_tok op <> None -> bin_form op = Some (1, f) -> helper_name f = Some md ->
+  fits a = true -> fits b = true -> b <> 0 -> fits (if md then c_mod a b else c_floordiv a b) = true ->
+  c_of (EBin op (EInt a) (EInt b)) [] = Some (COk (CInt (if md then c_mod a b else c_floordiv a b), [])).
+Proof.
+  intros Ht Hf Hn Ha Hb Hb0 Hr. unfold c_of. cbn [to_c].
+  destruct (bin_tok op); [|congruence]. cbn [tbind]. rewrite Hf.
+  assert (Hmin : text_eqb f t_min || text_eqb f t_max = false).
+  { unfold helper_name in Hn. destruct (text_eqb f t_floordiv) eqn:E1.
+    - apply text_eqb_eq in E1. subst f. reflexivity.
+    - destruct (text_eqb f t_mod) eqn:E2; [|discriminate]. apply text_eqb_eq in E2. subst f. reflexivity. }
+  apply orb_false_iff in Hmin as [Hmin Hmax].
+  unfold crun. cbn [ctype]. rewrite Hmin, Hmax, Hn, Ha, Hb. cbn [orb arith_ty is_numty is_intty andb].
+  cbn [ceval]. rewrite Hmin, Hmax, Hn. unfold mkint at 1. rewrite Hb. cbn [cbind]. unfold mkint at 1. rewrite Ha. cbn [cbind].
+  cbn [csem_helper tag_of arith_ty is_numty is_intty andb as_int].
+  apply Z.eqb_neq in Hb0. rewrite Hb0. rewrite (fits_mkint _ Hr). reflexivity.
+Qed.
+
+Lemma floordiv_closed a b :
+  fits a = true -> fits b = true -> b <> 0 -> fits (a / b) = true ->
+  py_of (EBin FloorDiv (EInt a) (EInt b)) = Ok (VInt (a / b)) /\
+  c_of (EBin FloorDiv (EInt a) (EInt b)) [] = Some (COk (CInt (a / b), [])).
+Proof.
+  intros Ha Hb Hb0 Hr. split.
+  - unfold py_of. cbn. apply Z.eqb_neq in Hb0. rewrite Hb0. reflexivity.
+  - destruct (bin_form FloorDiv) as [[kind f]|] eqn:Ef; [|vm_compute in Ef; discriminate Ef].
+    destruct (helper_table _ _ _ false (bin_form_in _ _ Ef) eq_refl) as [-> Hn].
+    rewrite <- (c_floordiv_div a b Hb0) in *.
+    apply (c_of_helper_int FloorDiv false f a b); auto. vm_compute. discriminate.
+Qed.
+
+Lemma mod_closed a b :
+  fits a = true -> fits b = true -> b <> 0 ->
+  py_of (EBin Mod (EInt a) (EInt b)) = Ok (VInt (a mod b)) /\
+  c_of (EBin Mod (EInt a) (EInt b)) [] = Some (COk (CInt (a mod b), [])).
+Proof.
+  intros Ha Hb Hb0. split.
+  - unfold py_of. cbn. apply Z.eqb_neq in Hb0. rewrite Hb0. reflexivity.
+  - destruct (bin_form Mod) as [[kind f]|] eqn:Ef; [|vm_compute in Ef; discriminate Ef].
+    destruct (helper_table _ _ _ true (bin_form_in _ _ Ef) eq_refl) as [-> Hn].
+    assert (Hr : fits (a mod b) = true).
+    { unfold fits in *. apply andb_true_iff in Hb as [Hb1 Hb2]. apply Z.leb_le in Hb1, Hb2.
+      apply andb_true_iff. split; apply Z.leb_le.
+      - destruct (Z.ltb_spec 0 b); [pose proof (Z.mod_pos_bound a b); lia|pose proof (Z.mod_neg_bound a b); lia].
+      - destruct (Z.ltb_spec 0 b); [pose proof (Z.mod_pos_bound a b); lia|pose proof (Z.mod_neg_bound a b); lia]. }
+    rewrite <- (c_mod_mod a b Hb0) in *.
+    apply (c_of_helper_int Mod true f a b); auto. vm_compute. discriminate.
+Qed.
+
+(* ** (repaired defect F-C01-pow): an expression with ** is never translated - the emitter raises ValueError (or the
+   model does not transcribe an operand) *)
+Lemma pow_rejected G a b c : to_c G (EBin Pow a b) <> TOk c.
+Proof.
+  intro H. cbn [to_c] in H. destruct (bin_tok Pow); [|discriminate H].
+  apply tbind_ok in H as (a' & _ & H). apply tbind_ok in H as (b' & _ & H).
+  destruct (bin_form Pow) as [[kind f]|] eqn:Ef; [|discriminate H].
+  rewrite (pow_table _ _ (bin_form_in _ _ Ef)) in H. discriminate H.
+Qed.
+
+Lemma pow_witness : py_of (EBin Pow (EInt 7) (EInt 2)) = Ok (VInt 49) /\ to_c G0 (EBin Pow (EInt 7) (EInt 2)) = Rejected.
+Proof. split; vm_compute; reflexivity. Qed.
 
 Lemma truediv_refuted : exists a b : Z, b <> 0 /\
   py_of (EBin Div (EInt a) (EInt b)) = Ok (VFloat (7 # 2)) /\
   c_of (EBin Div (EInt a) (EInt b)) [] = Some (COk (CInt 3, [])).
 Proof. exists 7, 2. split; [lia|]. split; vm_compute; reflexivity. Qed.
-
-Lemma pow_refuted : exists a b : Z,
-  py_of (EBin Pow (EInt a) (EInt b)) = Ok (VInt 49) /\
-  c_of (EBin Pow (EInt a) (EInt b)) [] = Some CStuck.
-Proof. exists 7, 2. split; vm_compute; reflexivity. Qed.
 
 Lemma shift_range_refuted : exists a b : Z,
   py_of (EBin RShift (EInt a) (EInt b)) = Ok (VInt 0) /\
